@@ -61,7 +61,7 @@ def jobs(tier):
     add(S + 'ell_compute', dict(d=1, n=2))
     add(S + 'ell_compute', dict(d=1, n=3))
     if thorough:
-        add(S + 'ell_compute', dict(d=1, n=4), nra=300000)
+        add(S + 'ell_compute', dict(d=1, n=4), nra=120000)
     pats = [[True], [False], [True, False], [False, False], [True, True]]
     if thorough:
         pats += [[False, True, False], [False, False, False],
@@ -71,7 +71,8 @@ def jobs(tier):
     add(N + 'mixture_compute', dict(d=1, n=2))
     add(N + 'mixture_compute', dict(d=2, n=3))
     if thorough:
-        add(N + 'mixture_compute', dict(d=3, n=4), max_paths=60000)
+        add(N + 'mixture_compute', dict(d=2, n=4), max_paths=20000)
+        add(N + 'mixture_compute', dict(d=3, n=4), max_paths=4000)
     for n_net in (0, 1, 2):
         add(N + 'neural_contains', dict(d=2, n_net=n_net))
     # union (members by contract)
